@@ -32,43 +32,99 @@ def rule_history(crate):
         out.ok("push:item", f, push["line"], "the stored item is {input, result} as given")
     else:
         out.violation("push:item", f, push["line"], "the stored history item is not built from the `input` and `result` arguments unchanged")
-    # save_inner
+    # save_inner: the condition under which an item is written, as a boolean function of
+    #   E = item.result.is_err()   and   I = include_err_lines
+    # collected from every idiom that can drop an item: `if C { continue }`, `if C { write }`, `.filter(|item| P)`;
+    # it must be equivalent to  !E || I  (truth table), and nothing else may drop items (take/skip/break).
     sv = crate.find_fn("session_history::SessionHistory::save_inner")
     sf = crate.file_of(sv)
-    loops = [x for x in walk(sv["body"]) if x.get("k") == "Loop"]
-    good = False
-    why = "no loop over the items found"
-    for lp in loops:
-        skips = []
-        for n in walk(lp["body"]):
-            if n.get("k") == "If" and any(x.get("k") == "Continue" for x in walk(n["then"])):
-                skips.append(n)
-        writes = []
-        unconditional_calls(lp["body"], lambda c: c.get("k") in ("MethodCall", "Call") and ((callee(c) or "").endswith("io::Write::write_fmt") or (c.get("name") in ("write_fmt", "write_all"))), writes, False)
-        if not writes:
-            continue
-        # (the for-loop desugaring puts the body under a match arm; treat that as unconditional)
-        if len(skips) == 1:
-            c = peel(skips[0]["cond"])
-            names = {x["name"] for x in walk(c) if x.get("k") == "MethodCall"}
-            reads_flag = any(x.get("k") == "Path" and x["res"].get("name") == "include_err_lines" for x in walk(c))
-            conj = c.get("k") == "Binary" and c.get("op") == "&&"
-            if "is_err" in names and reads_flag and conj:
-                good = True
+    flag_ids = set()
+    for n in walk(sv["body"]):
+        if n.get("k") == "Binding" and n.get("name") == "include_err_lines":
+            flag_ids.add(n["id"])
+    for p in sv["params"]:
+        for n in walk(p):
+            if n.get("k") == "Binding" and n.get("name") == "include_err_lines":
+                flag_ids.add(n["id"])
+
+    class Unknown(Exception):
+        pass
+
+    def ev(e, E, I):
+        e = peel_refs(e)
+        k = e.get("k")
+        if k == "Unary" and e.get("op") == "Not":
+            return not ev(e["e"], E, I)
+        if k == "Binary" and e.get("op") == "&&":
+            return ev(e["l"], E, I) and ev(e["r"], E, I)
+        if k == "Binary" and e.get("op") == "||":
+            return ev(e["l"], E, I) or ev(e["r"], E, I)
+        if k == "MethodCall" and e["name"] in ("is_err", "is_ok") and not e["args"]:
+            p = place_path(e["recv"])
+            if p and p[2][-1:] == ["result"]:
+                return E if e["name"] == "is_err" else (not E)
+        if k == "Path" and e["res"].get("r") == "local" and e["res"]["id"] in flag_ids:
+            return I
+        if k == "Field" and e.get("name") == "include_err_lines":
+            return I
+        if k == "Lit" and isinstance(e.get("lit"), dict) and e["lit"].get("lk") == "bool":
+            return bool(e["lit"]["v"])
+        if k == "Block" and not e.get("stmts") and e.get("tail") is not None:
+            return ev(e["tail"], E, I)
+        raise Unknown()
+
+    conds = []  # (expression, polarity: True = item is written when the expression is true)
+    droppers = []
+    writes_total = 0
+    for n in walk(sv["body"]):
+        k = n.get("k")
+        if k == "MethodCall" and n["name"] == "filter" and n["args"]:
+            cl = peel(n["args"][0])
+            if cl.get("k") == "Closure":
+                conds.append((cl["body"], True))
             else:
-                why = "the skip condition is not `item.result.is_err() && !include_err_lines`"
-        elif not skips:
-            why = "no skip of failed lines at all"
-        else:
-            why = "more than one way to skip an item"
-        breaks = [x for x in walk(lp["body"]) if x.get("k") == "Break" and not (len(x.get("s", [])) >= 3 and x["s"][2] == 1)]
-        if breaks:
-            good = False
-            why = "the loop over the items can stop early"
-    if good:
-        out.ok("save_inner:writes-successful-lines", sf, sv["line"], "an item is skipped only if it failed and error lines are excluded; every other item is written")
+                droppers.append("filter with a non-closure predicate")
+        elif k == "MethodCall" and n["name"] in ("take", "skip", "step_by", "take_while", "skip_while", "filter_map", "nth", "last", "rev_take"):
+            droppers.append(n["name"])
+        elif k == "If":
+            then_cont = any(x.get("k") == "Continue" for x in walk(n["then"]))
+            then_writes = any(x.get("k") in ("MethodCall", "Call") and ((callee(x) or "").endswith("io::Write::write_fmt") or x.get("name") in ("write_fmt", "write_all")) for x in walk(n["then"]))
+            else_writes = n.get("else") is not None and any(x.get("k") in ("MethodCall", "Call") and ((callee(x) or "").endswith("io::Write::write_fmt") or x.get("name") in ("write_fmt", "write_all")) for x in walk(n["else"]))
+            c = peel(n["cond"])
+            if c.get("k") == "Let":
+                continue
+            if then_cont and not then_writes:
+                conds.append((c, False))
+            elif then_writes and not else_writes:
+                conds.append((c, True))
+            elif else_writes and not then_writes:
+                conds.append((c, False))
+        if k in ("MethodCall", "Call") and ((callee(n) or "").endswith("io::Write::write_fmt") or n.get("name") in ("write_fmt", "write_all")):
+            writes_total += 1
+    breaks = [x for x in walk(sv["body"]) if x.get("k") == "Break" and not (len(x.get("s", [])) >= 3 and x["s"][2] == 1)]
+    loops = [x for x in walk(sv["body"]) if x.get("k") == "Loop"]
+    key = "save_inner:writes-successful-lines"
+    if not writes_total:
+        out.error("anchor missing: save_inner contains no write")
+    elif breaks or droppers:
+        out.violation(key, sf, sv["line"], "save does not write exactly the successful lines: the loop over the items can stop early or drops items (%s)" % ", ".join(droppers or ["break"]))
     else:
-        out.violation("save_inner:writes-successful-lines", sf, sv["line"], "save does not write exactly the successful lines: " + why)
+        table = {}
+        unknown = False
+        for E in (False, True):
+            for I in (False, True):
+                try:
+                    table[(E, I)] = all((ev(c, E, I) if pol else not ev(c, E, I)) for (c, pol) in conds)
+                except Unknown:
+                    unknown = True
+        want = {(E, I): ((not E) or I) for E in (False, True) for I in (False, True)}
+        if unknown:
+            out.advisory(key, sf, sv["line"], "the write condition of save_inner contains a test other than result.is_err()/is_ok() and include_err_lines; not decided")
+        elif table == want:
+            out.ok(key, sf, sv["line"], "an item is written iff !result.is_err() || include_err_lines (truth table over %d condition(s)): failed lines are skipped only when error lines are excluded, successful lines are always written" % len(conds))
+        else:
+            bad = [k2 for k2 in want if table[k2] != want[k2]]
+            out.violation(key, sf, sv["line"], "save does not write exactly the successful lines: with (is_err, include_err_lines) = %s the item is %s" % (bad[0], "written" if table[bad[0]] else "dropped"))
     out.analysed = {"append_sites": len(appends), "loops": len(loops)}
     out.floor("append_sites", len(appends), 1)
     return out
